@@ -53,7 +53,7 @@ Clauses == <<
   <<"C10a", "C10", "tr">>, <<"C10b", "C10", "tr">>, <<"C10c", "C10", "end">>,
   <<"C11a", "C11", "end">>, <<"C11b", "C11", "end">>, <<"C11c", "C11", "end">>,
   <<"C11d", "C11", "end">>, <<"C11e", "C11", "end">>,
-  <<"C12a", "C12", "end">>, <<"C12b", "C12", "end">>, <<"C12c", "C12", "end">>,
+  <<"C12a", "C12", "end">>, <<"C12b", "C12", "end">>, <<"C12c", "C12", "end">>, <<"C12d", "C12", "end">>,
   <<"C13a", "C13", "st">>, <<"C13b", "C13", "st">>, <<"C13c", "C13", "tr">>,
   <<"C13d", "C13", "tr">>, <<"C13e", "C13", "end">>,
   <<"C14a", "C14", "end">>, <<"C14b", "C14", "end">>,
@@ -193,6 +193,7 @@ EvalEnd(n, e, s, twinE, twinS, prevE, prevS) ==
     [] n = "C12a" -> C12a(cx, s, unchanged)
     [] n = "C12b" -> C12b(cx, s, unchanged)
     [] n = "C12c" -> C12c(cx, s, nh, h1, unchanged)
+    [] n = "C12d" -> C12d(cx, s, nh, unchanged)
     [] n = "C13e" -> C13e(cx, s)
     [] n = "C14a" -> IF e.first # 0 /\ e.first # l
                      THEN LET o == Rec[e.first] IN
